@@ -391,3 +391,139 @@ class CanaryCoinTypeAlwaysZero(_BipGroup):
 
 
 CANARIES += [CanaryCoinTypeAlwaysZero()]
+
+
+# ------------------------------------------------------------------------------------------ node_extended_keys on derived nodes
+from .common import mk_node      # noqa: E402
+
+
+class _NodeExtendedKeysDeep:
+    """C06/C14/C16: extended keys of ANY node below the wallet's root carry the WALLET's network and the SLIP-132
+    flavour named by the first path component (44'/49'/84', anything else: x/t); prv only for private wallets.
+    The node is `levels` derivation steps below the root, with arbitrary indexes."""
+    target = "btc_hd_wallet.base_wallet.BaseWallet.node_extended_keys"
+    props = ("C06", "C14", "C16")
+    levels = 2
+    private = True
+
+    def inputs(self, B):
+        R = repo()
+        w, wn = sym_wallet(B, private=self.private)
+        cls = R.bip32.PrvKeyNode if self.private else R.bip32.PubKeyNode
+        parent = wn.master.ref
+        chain = []
+        for lv in range(self.levels):
+            hard = bool(B.case(f"lv{lv}_hardened", 2)) if self.private else False
+            idx = B.int(f"lv{lv}_index", HARD, 2 ** 32) if hard else B.int(f"lv{lv}_index", 0, HARD)
+            if self.private:
+                k = B.int(f"lv{lv}_k", 1, N)
+                key = seg(k, 32)
+                pt = U.ecmul(k)
+            else:
+                from .common import sym_sec33
+                key, pt = sym_sec33(B, f"lv{lv}_key")
+                k = None
+            cc = B.bytes(f"lv{lv}_cc", 32)
+            ref = mk_node(B, cls, key=key, chain_code=cc, index=idx, depth=wn.master.depth + lv + 1, testnet=wn.testnet, parent=parent,
+                          children=B.list_sym(f"lv{lv}_children"))
+            chain.append(NS(ref=ref, k=k, key=key, pt=pt, cc=cc, idx=idx, hard=hard))
+            parent = ref
+        return [w], dict(node=chain[-1].ref), NS(w=wn, chain=chain)
+
+    def post(self, c, I, out):
+        m = I.w.master
+        yield "ensures.returns", out.returned
+        if not out.returned:
+            return
+        d = c.deref(out.value).d
+        node = I.chain[-1]
+        par_pt = I.chain[-2].pt if len(I.chain) > 1 else (U.ecmul(m.k) if self.private else m.pt)
+        fp = fingerprint_of_point(par_pt)
+        first = I.chain[0].idx
+        bip = ite(first == 49 + HARD, 1, ite(first == 84 + HARD, 2, 0))
+        mark = "m" if self.private else "M"
+        parts = [mark]
+        for n in I.chain:
+            parts += ["/"] + ([Dec(n.idx - HARD), "'"] if n.hard else [Dec(n.idx)])
+        yield "ensures.path", eq(d.get("path"), mk_str(parts))
+        depth = m.depth + len(I.chain)
+        yield "ensures.pub_wallet_network_and_purpose_flavour", eq(d.get("pub"), spec_xkey(
+            slip132_version(False, bip, I.w.testnet), depth, fp, node.idx, node.cc, serP(node.pt)))
+        if self.private:
+            yield "ensures.prv_wallet_network_and_purpose_flavour", eq(d.get("prv"), spec_xkey(
+                slip132_version(True, bip, I.w.testnet), depth, fp, node.idx, node.cc, Rope.of(b"\x00") + seg(node.k, 32)))
+        else:
+            yield "ensures.prv_is_None", d.get("prv") is None
+
+
+for _priv in (True, False):
+    for _lv in (1, 2, 3):
+        CONTRACTS.append(type(f"NodeExtendedKeysDeep{'Prv' if _priv else 'Pub'}{_lv}", (_NodeExtendedKeysDeep,), dict(private=_priv, levels=_lv))())
+
+
+@contract
+class ExportToFile:
+    """C20: export_to_file opens exactly the requested path for writing, writes exactly the contents, and touches
+    no other file (no temporary siblings, no renames)"""
+    target = "btc_hd_wallet.paper_wallet.PaperWallet.export_to_file"
+    props = ("C20",)
+
+    def _with_hook(self, frame, s):
+        import ast as _ast
+        ctx = frame.ctx
+        if len(s.items) != 1:
+            raise Undecided("with: several items")
+        call = s.items[0].context_expr
+        if not (isinstance(call, _ast.Call) and isinstance(call.func, _ast.Name) and call.func.id == "open"):
+            raise Undecided("with: not open(...)")
+        args = [frame.ev(a) for a in call.args]
+        kw = {k.arg: frame.ev(k.value) for k in call.keywords}
+        ctx.effects.append(("open", tuple(args), kw))
+        from pyvc.engine import Mock
+        f = Mock("file")
+        if s.items[0].optional_vars is not None:
+            frame.assign(s.items[0].optional_vars, f)
+        frame.exec_block(s.body)
+        ctx.effects.append(("close", (), {}))
+
+    def __init__(self):
+        self.opts = dict(with_hook=self._with_hook)
+
+    def run_real(self, f, rargs, rkw, I):
+        import tempfile, os, shutil
+        d = tempfile.mkdtemp(prefix="vexp_")
+        try:
+            name = "wallet.json"
+            decoys = {n: "KEEP-" + n for n in (name + ".tmp", name + ".bak", name + "~", "." + name + ".swp", "wallet", "wallet.json.part", "tmp")}
+            for n, txt in decoys.items():
+                open(os.path.join(d, n), "w").write(txt)
+            target = os.path.join(d, name)
+            f(file_path=target, contents="CONTENTS")
+            I.after = {n: (open(os.path.join(d, n)).read() if os.path.isfile(os.path.join(d, n)) else None) for n in os.listdir(d)}
+            I.decoys = decoys
+            I.name = name
+            return None
+        finally:
+            shutil.rmtree(d, ignore_errors=True)
+
+    def inputs(self, B):
+        from .c_main import Leaf
+        p, cts = Leaf("file_path"), Leaf("contents")
+        if B.concrete:
+            return [], dict(file_path="x", contents="y"), NS(p=p, cts=cts)
+        return [], dict(file_path=p, contents=cts), NS(p=p, cts=cts)
+
+    def post(self, c, I, out):
+        yield "ensures.returns", out.returned
+        if hasattr(I, "after"):
+            want = dict(I.decoys)
+            want[I.name] = "CONTENTS"
+            yield "ensures.only_the_requested_file_is_written", I.after == want
+            return
+        eff = c.effects
+        ok = len(eff) == 3 and eff[0][0] == "open" and eff[1][0] == "file.write" and eff[2][0] == "close"
+        yield "ensures.one_open_one_write", ok
+        if ok:
+            oa, okw = eff[0][1], eff[0][2]
+            yield "ensures.opens_the_requested_path_for_writing", len(oa) >= 1 and oa[0] is I.p and (list(oa[1:]) + [okw.get("mode")])[0] in ("w", "wt") and not (set(okw) - {"mode"})
+            yield "ensures.writes_exactly_the_contents", len(eff[1][1]) == 1 and eff[1][1][0] is I.cts
